@@ -568,7 +568,10 @@ impl LockFreeMemoryPool {
     }
 
     /// Deallocate to skip list (for large blocks)  
-    fn deallocate_to_skip_list(&self, _ptr: NonNull<u8>, _size: usize) -> Result<()> {
+    fn deallocate_to_skip_list(&self, ptr: NonNull<u8>, _size: usize) -> Result<()> {
+        // Reject pointers outside the pool, like the fast-bin path does
+        self.ptr_to_offset(ptr)?;
+
         // For now, just track statistics
         if let Some(stats) = &self.stats {
             stats.skip_deallocs.fetch_add(1, Ordering::Relaxed);
